@@ -9,6 +9,9 @@ Generated/C13Facts.lean; OnsagerProofs/C13Tie.lean discharges `readSet ⊆ write
 codecs on random and real data.  (c) direct oracles: save → load through in-memory HDF5 / YAML on the crystal zoo,
 before and after cache population, then random further calls on both copies compared BIT-exactly; tags exactly.
 """
+import os
+for _v in ('OPENBLAS_NUM_THREADS', 'OMP_NUM_THREADS', 'MKL_NUM_THREADS'):
+    os.environ.setdefault(_v, '1')      # bit-exact comparisons: no thread-scheduling effects in BLAS/LAPACK reductions
 import os, itertools
 import numpy as np
 from . import _c13_common as cm
@@ -33,16 +36,19 @@ META = dict(
     theorems=['Onsager.C13.unflatten_flatten', 'Onsager.C13.roundtrip_eq_take', 'Onsager.C13.roundtrip_error_iff',
               'Onsager.C13.array2psList_psList2array', 'Onsager.C13.psList2array_ok_iff', 'Onsager.C13.hsplit_hstack',
               'Onsager.C13.vtk_roundtrip', 'Onsager.C13.jumpnetwork_roundtrip', 'Onsager.C13.taylor_load_perm',
-              'Onsager.C13.taylor_load_order_irrelevant', 'Onsager.C13.load_save_observational'],
+              'Onsager.C13.taylor_load_order_irrelevant', 'Onsager.C13.taylorLoadSrc_perm',
+              'Onsager.C13.load_save_observational'],
     tie_theorems=['Onsager.C13.src_read_subset_write', 'Onsager.C13.src_datasets_read_subset_written',
-                  'Onsager.C13.src_hdf5list_loops', 'Onsager.C13.src_vm_observational'],
+                  'Onsager.C13.src_hdf5list_loops', 'Onsager.C13.src_taylor_load', 'Onsager.C13.src_vm_observational'],
     rule='codec cases: random lists of lists with empty sub-lists in every position, pair-state lists, vTK key sets, '
          'Taylor key sets; object cases: one (class, crystal, cache state, call sequence) each on SC/FCC/BCC/HCP/B2/'
          'diamond/2-D square, triangular, honeycomb/rectangular two-site/triclinic (thorough: + tetragonal multi-Wyckoff, '
          'monoclinic non-primitive, Nthermo=2); non-trivial = the reloaded object is asked for at least one input it has '
          'not cached; distinct by content',
     trusted=['Python ast extraction of read/write sets (harness/props/_c13_extract.py)',
-             'h5py with driver=core, backing_store=False stands for files on disk'],
+             'h5py with driver=core, backing_store=False stands for files on disk',
+             'BLAS/LAPACK run single-threaded in the harness; a last-bit Lij difference is reported only if it shows again when '
+             'both copies are evaluated once more'],
     assumptions=['Nthermo >= 1 (a calculator with Nthermo = 0 is not usable; its empty StarSet cannot be written)',
                  'tags are ASCII without trailing NUL (numpy S dtype)'],
 )
@@ -80,6 +86,8 @@ def extract(repo):
     out.append('def hdf5Loops : Bool := %s' % ('true' if F['VacancyMediated']['loops'] and F['GFCrystalcalc']['loops'] else 'false'))
     out.append('def hdf5listVacancyMediated : List Nat := %s' % L(F['VacancyMediated']['hdf5list']))
     out.append('def hdf5listGFCrystalcalc : List Nat := %s' % L(F['GFCrystalcalc']['hdf5list']))
+    out.append("/-- Taylor addhdf5 writes attrs['order'] and loadhdf5 sorts on it -/")
+    out.append('def taylorOrderRestored : Bool := %s' % ('true' if F['Taylor3D']['order_restored'] else 'false'))
     out.append('end Generated.C13')
     return {'C13Facts.lean': '\n'.join(out) + '\n'}
 
@@ -231,6 +239,11 @@ def _deep_equal(a, b, path, diffs, depth=0):
         return
 
 
+def _tiny(a, b):
+    a, b = np.asarray(a, dtype=float), np.asarray(b, dtype=float)
+    return a.shape == b.shape and float(np.max(np.abs(a - b))) <= 1e-13 * max(1e-300, float(np.max(np.abs(b))))
+
+
 def _flatten_pre(ll):
     return len(ll) > 0 and len(ll[-1]) > 0
 
@@ -315,11 +328,21 @@ def _vm_roundtrip(ctx, name, nthermo, ncalls):
                 if diffs:
                     ctx.violation('reload-attribute-differs:%s.%s' % (sub, attr), 'attribute differs after reload: %s' % (diffs[0],),
                                   dict(calculator=label, cache=state, diffs=[list(x) for x in diffs[:5]]))
-        _vm_api_equal(ctx, label, d, d2, state)
+        try:
+            _vm_api_equal(ctx, label, d, d2, state)
+        except Exception as e:
+            ctx.violation('reload-raises-on-use:api:' + type(e).__name__, 'a result method of the reloaded calculator raises %r' % (e,),
+                          dict(calculator=label, cache=state))
         # tag input on both copies
         for _ in range(3):
             u = _user_dict(rng, d)
-            r1, r2 = d.tags2preene(dict(u), VERBOSE=True), d2.tags2preene(dict(u), VERBOSE=True)
+            r1 = d.tags2preene(dict(u), VERBOSE=True)
+            try:
+                r2 = d2.tags2preene(dict(u), VERBOSE=True)
+            except Exception as e:
+                ctx.violation('reload-raises-on-use:tags2preene:' + type(e).__name__, 'tags2preene on the reloaded calculator raises %r' % (e,),
+                              dict(calculator=label, cache=state, user=list(u)))
+                break
             if any(not cm.same_bits(r1[0][k], r2[0][k]) for k in r1[0]) or r1[1:] != r2[1:]:
                 ctx.violation('reload-differs:tags2preene', 'tags2preene differs on the reloaded calculator',
                               dict(calculator=label, cache=state, user=list(u)))
@@ -327,8 +350,20 @@ def _vm_roundtrip(ctx, name, nthermo, ncalls):
         seq = [rng.randrange(len(pool)) for _ in range(ncalls)]
         fresh_seen = False
         for n, x in enumerate(seq):
-            r1 = d.Lij(*cm.copy_args(pool[x])); r2 = d2.Lij(*cm.copy_args(pool[x]))
+            r1 = d.Lij(*cm.copy_args(pool[x]))
+            try:
+                r2 = d2.Lij(*cm.copy_args(pool[x]))
+            except Exception as e:
+                ctx.violation('reload-raises-on-use:Lij:' + type(e).__name__,
+                              'Lij on the reloaded calculator raises %r (the original works)' % (e,),
+                              dict(calculator=label, cache=state, calls=seq[:n + 1], input_hex=[cm.jarr(a) for a in pool[x]]))
+                break
             fresh_seen |= (state == 'empty-cache' or x >= 2)
+            if not cm.same_tuple(r1, r2) and all(_tiny(a, b) for a, b in zip(r1, r2)):
+                # last-bit difference: evaluate once more on both copies; a genuine difference shows again
+                r1b, r2b = d.Lij(*cm.copy_args(pool[x])), d2.Lij(*cm.copy_args(pool[x]))
+                if cm.same_tuple(r1b, r2b) and cm.same_tuple(r1b, r1):
+                    ctx.count('nonreproducible-last-bit-difference'); r2 = r1
             if not cm.same_tuple(r1, r2):
                 which = [nm for nm, a, b in zip(('L0vv', 'Lss', 'Lsv', 'L1vv'), r1, r2) if not cm.same_bits(a, b)]
                 ctx.violation('reload-differs:Lij:' + state, 'Lij differs between original and reloaded calculator in %s' % which,
@@ -453,6 +488,8 @@ def _stars_roundtrip(ctx, name):
 def _taylor_roundtrip(ctx, n):
     from onsager import PowerExpansion
     rng = ctx.rng
+    restored = 1 if ex.facts(_repo())['Taylor3D']['order_restored'] else 0
+    ctx.count('taylor:order-attribute-in-source', restored)
     lines, expects = [], []
     for t in range(n):
         T = PowerExpansion.Taylor3D if t % 2 == 0 else PowerExpansion.Taylor2D
@@ -473,7 +510,7 @@ def _taylor_roundtrip(ctx, n):
         finally:
             f.close()
         got = [(int(a), int(b)) for a, b, c in t2.coefflist]
-        lines.append('taylor | ' + ' '.join('%d:%d' % x for x in nl)); expects.append('1 ' + ' '.join('%d:%d' % x for x in got))
+        lines.append('taylor | %d | ' % restored + ' '.join('%d:%d' % x for x in nl)); expects.append('1 ' + ' '.join('%d:%d' % x for x in got))
         d1 = {(a, b): c for a, b, c in t1.coefflist}
         ok = len(t2.coefflist) == len(cl) and all((int(a), int(b)) in d1 and cm.same_bits(d1[(int(a), int(b))], c) for a, b, c in t2.coefflist)
         if not ok:
